@@ -11,7 +11,9 @@
 #include <verif.hpp>
 
 #include <array>
+#include <deque>
 #include <functional>
+#include <iterator>
 #include <string>
 
 #include <tlx/sort/networks/best.hpp>
@@ -76,11 +78,81 @@ static void direct(int fam, T* a, size_t n, CSwap cs) {
     }
 }
 
-template <typename T, typename Cmp>
-static void dispatched(int fam, T* b, T* e, Cmp cmp) {
+// The dispatching sort(begin, end, cmp) is a template over the iterator and takes the comparator as the
+// caller's (named, reusable) object: it is called with that object as an lvalue, and with raw pointers,
+// reverse iterators, deque iterators across a block boundary and a strided iterator.
+template <typename It, typename Cmp>
+static void dispatched(int fam, It b, It e, Cmp& cmp) {
     if (fam == BEST) sn::best::sort(b, e, cmp);
     else if (fam == BN) sn::bose_nelson::sort(b, e, cmp);
     else sn::bose_nelson_parameter::sort(b, e, cmp);
+}
+
+//! random access iterator over every s-th object of an array: it[i] is not (&*it)[i]
+template <typename T>
+struct Strided {
+    typedef std::random_access_iterator_tag iterator_category;
+    typedef T value_type;
+    typedef std::ptrdiff_t difference_type;
+    typedef T* pointer;
+    typedef T& reference;
+    T* p; std::ptrdiff_t s;
+    reference operator*() const { return *p; }
+    pointer operator->() const { return p; }
+    reference operator[](difference_type i) const { return p[i * s]; }
+    Strided& operator++() { p += s; return *this; }
+    Strided operator++(int) { Strided t = *this; p += s; return t; }
+    Strided& operator--() { p -= s; return *this; }
+    Strided operator--(int) { Strided t = *this; p -= s; return t; }
+    Strided& operator+=(difference_type i) { p += i * s; return *this; }
+    Strided& operator-=(difference_type i) { p -= i * s; return *this; }
+    friend Strided operator+(Strided a, difference_type i) { a += i; return a; }
+    friend Strided operator+(difference_type i, Strided a) { a += i; return a; }
+    friend Strided operator-(Strided a, difference_type i) { a -= i; return a; }
+    friend difference_type operator-(const Strided& a, const Strided& b) { return (a.p - b.p) / a.s; }
+    friend bool operator==(const Strided& a, const Strided& b) { return a.p == b.p; }
+    friend bool operator!=(const Strided& a, const Strided& b) { return a.p != b.p; }
+    friend bool operator<(const Strided& a, const Strided& b) { return a.p < b.p; }
+    friend bool operator>(const Strided& a, const Strided& b) { return a.p > b.p; }
+    friend bool operator<=(const Strided& a, const Strided& b) { return a.p <= b.p; }
+    friend bool operator>=(const Strided& a, const Strided& b) { return a.p >= b.p; }
+};
+
+enum IterKind { IT_POINTER = 0, IT_REVERSE, IT_STRIDED, IT_DEQUE, IT_KINDS };
+static const char* ITN[IT_KINDS] = { "pointer", "reverse_iterator", "strided-iterator", "deque-iterator" };
+
+//! sorts a[0..n) through the dispatcher using the given iterator kind; on return a[0..n) holds the
+//! result in ascending position order of the iterator; returns a non-empty reason if objects outside
+//! the range were touched. `filler` is a value that is recognisable outside the range.
+template <typename T, typename Cmp, typename Same>
+static std::string dispatched_via(int kind, int fam, T* a, size_t n, Cmp& cmp, const T& filler, Same same) {
+    if (kind == IT_POINTER) { dispatched(fam, a, a + n, cmp); return ""; }
+    if (kind == IT_REVERSE) {
+        std::reverse(a, a + n);
+        dispatched(fam, std::reverse_iterator<T*>(a + n), std::reverse_iterator<T*>(a), cmp);
+        std::reverse(a, a + n);
+        return "";
+    }
+    if (kind == IT_STRIDED) {
+        std::vector<T> buf(3 * n + 3, filler);
+        for (size_t i = 0; i < n; ++i) buf[1 + 3 * i] = a[i];
+        Strided<T> b{ buf.data() + 1, 3 };
+        dispatched(fam, b, b + (std::ptrdiff_t)n, cmp);
+        for (size_t i = 0; i < n; ++i) a[i] = buf[1 + 3 * i];
+        for (size_t i = 0; i < buf.size(); ++i)
+            if (!(i % 3 == 1 && i / 3 < n) && !same(buf[i], filler)) return "object-outside-the-range-modified";
+        return "";
+    }
+    // deque: the range straddles a block boundary of the deque (libstdc++: blocks of 512 bytes)
+    const size_t block = sizeof(T) < 512 ? 512 / sizeof(T) : 1;
+    const size_t front = block - std::min(block, n / 2);
+    std::deque<T> d(front + n + 2, filler);
+    for (size_t i = 0; i < n; ++i) d[front + i] = a[i];
+    dispatched(fam, d.begin() + (std::ptrdiff_t)front, d.begin() + (std::ptrdiff_t)(front + n), cmp);
+    for (size_t i = 0; i < n; ++i) a[i] = d[front + i];
+    for (size_t i = 0; i < d.size(); ++i)
+        if ((i < front || i >= front + n) && !same(d[i], filler)) return "object-outside-the-range-modified";
+    return "";
 }
 
 /******************************************************************************/
@@ -110,39 +182,47 @@ static std::string dumpE(const E* a, size_t n) {
     return s;
 }
 
+#if VERIF_PART == 0
 static void mode_zo(uint64_t n) {
     if (n > 16) return;
     uint64_t inputs = 0;
     for (int fam = 0; fam < 3; ++fam)
-        for (int entry = 0; entry < 2; ++entry)
+        for (int entry = 0; entry < 1 + IT_KINDS; ++entry)
             for (int order = 0; order < 2; ++order) {
+                if (entry > 1 && order == 1) continue;   // the extra iterator kinds with one order only
                 for (uint32_t bits = 0; bits < (1u << n); ++bits) {
                     E a[17], in[17];
                     for (size_t i = 0; i < n; ++i) { a[i].key = (bits >> i) & 1; a[i].id = (uint8_t)i; in[i] = a[i]; }
                     a[n].key = 0x77; a[n].id = 0x77;  // canary behind the range
                     std::string why;
                     bool ok;
+                    const E filler{ 0x55, 0x55 };
+                    auto sameE = [](const E& x, const E& y) { return x.key == y.key && x.id == y.id; };
+                    std::string outside;
                     if (order == 0) {
+                        ELess less;
                         if (entry == 0) direct(fam, a, n, sn::CS_IfSwap<ELess>(ELess()));
-                        else dispatched(fam, a, a + n, ELess());
+                        else outside = dispatched_via(entry - 1, fam, a, n, less, filler, sameE);
                         ok = check_E(a, n, ELess(), why);
                     }
                     else {
+                        EGreater greater;
                         if (entry == 0) direct(fam, a, n, sn::CS_IfSwap<EGreater>(EGreater()));
-                        else dispatched(fam, a, a + n, EGreater());
+                        else dispatched(fam, a, a + n, greater);
                         ok = check_E(a, n, EGreater(), why);
                     }
+                    if (ok && !outside.empty()) { ok = false; why = outside; }
                     if (ok && (a[n].key != 0x77 || a[n].id != 0x77)) { ok = false; why = "wrote-behind-range"; }
                     ++inputs;
                     if (!ok) {
                         verif::fail(std::string("C15:") + FAM[fam] + ":" + (entry ? "sort(begin,end)" : "sortN") +
                                     ":n=" + std::to_string(n) + ":" + why,
-                                    std::string(order ? "greater " : "less ") + "input " + dumpE(in, n) +
+                                    std::string(entry ? ITN[entry - 1] : "direct") + " " + std::string(order ? "greater " : "less ") + "input " + dumpE(in, n) +
                                     " -> " + dumpE(a, n));
                         goto next_combo;
                     }
                 }
-                verif::cover(std::string("zo:") + FAM[fam] + ":" + (entry ? "dispatch" : "direct") +
+                verif::cover(std::string("zo:") + FAM[fam] + ":" + (entry ? std::string("dispatch:") + ITN[entry - 1] : std::string("direct")) +
                              ":" + (order ? "greater" : "less") + ":n=" + std::to_string(n));
             next_combo:;
             }
@@ -150,7 +230,7 @@ static void mode_zo(uint64_t n) {
     verif::count("zero_one_n_complete");
     if (verif::want_sample(2))
         verif::sample("n=" + std::to_string(n) + ": all " + std::to_string(1u << n) +
-                      " zero-one inputs x 3 families x {sortN, sort(begin,end)} x {less, greater}");
+                      " zero-one inputs x 3 families x {sortN, sort(begin,end) over pointers / reverse / strided / deque iterators} x {less, greater}");
 }
 
 /******************************************************************************/
@@ -191,7 +271,9 @@ static void mode_obl(Rng& rng, uint64_t n) {
     }
 }
 
+#endif  // VERIF_PART == 0
 /******************************************************************************/
+#if VERIF_PART == 1
 
 struct Rec {
     int key;
@@ -208,22 +290,41 @@ struct RecByRank {
 };
 struct StrLenLess { bool operator()(const std::string& a, const std::string& b) const { return a.size() < b.size(); } };
 
-template <typename T, typename Cmp, typename Full>
-static void rand_one(Rng& rng, const char* tname, const char* cname, std::vector<T> in, Cmp cmp, Full full_less) {
+//! has the call left the caller's comparator object as it was?
+template <typename C> static bool cmp_intact(const C&, const C&) { return true; }
+static bool cmp_intact(const RecByRank& now, const RecByRank& before) { return now.rank == before.rank; }
+typedef std::function<bool(const Rec&, const Rec&)> RecFn;
+static bool cmp_intact(const RecFn& now, const RecFn&) { return (bool)now; }
+
+//! Iters: also through the non-pointer iterator kinds (kept to some (type, order) pairs: every pair
+//! instantiates 3 families x 15 networks per iterator kind)
+template <bool Iters, typename T, typename Cmp, typename Full>
+static void rand_one(Rng& rng, const char* tname, const char* cname, std::vector<T> in, Cmp cmp, Full full_less, const T& filler) {
     size_t n = in.size();
+    const Cmp cmp_before = cmp;
+    auto same = [&](const T& x, const T& y) { return !full_less(x, y) && !full_less(y, x); };
     for (int fam = 0; fam < 3; ++fam)
-        for (int entry = 0; entry < 2; ++entry) {
+        for (int entry = 0; entry < (Iters ? 1 + IT_KINDS : 2); ++entry) {
             std::vector<T> a = in;
             a.resize(n + 1);  // slot behind the range, must stay untouched
+            std::string why;
             if (entry == 0) {
                 // the conditional-swap object is built from a temporary copy of the comparator in a
                 // statement of its own and used afterwards: it has to own its comparator
                 sn::CS_IfSwap<Cmp> cs{ Cmp(cmp) };
                 direct(fam, a.data(), n, cs);
             }
-            else dispatched(fam, a.data(), a.data() + n, cmp);
+            else {
+                // the same named comparator object for every call (and for the checks below)
+                if (Iters) why = dispatched_via(entry - 1, fam, a.data(), n, cmp, filler, same);
+                else dispatched(fam, a.data(), a.data() + n, cmp);
+                if (!cmp_intact(cmp, cmp_before)) {
+                    verif::fail(std::string("C15:") + FAM[fam] + ":sort(begin,end):comparator-object-modified",
+                                std::string("type ") + tname + " order " + cname + ": the caller's comparator object was changed by the call");
+                    cmp = cmp_before;
+                }
+            }
             a.resize(n);
-            std::string why;
             for (size_t i = 1; i < n && why.empty(); ++i)
                 if (cmp(a[i], a[i - 1])) why = "not-sorted";
             if (why.empty()) {
@@ -235,9 +336,10 @@ static void rand_one(Rng& rng, const char* tname, const char* cname, std::vector
             if (!why.empty())
                 verif::fail(std::string("C15:") + FAM[fam] + ":" + (entry ? "sort(begin,end)" : "sortN") +
                             ":n=" + std::to_string(n) + ":" + why,
-                            std::string("type ") + tname + " order " + cname);
-            verif::cover(std::string("rand:") + tname + ":" + cname + ":" + FAM[fam] + ":" + (entry ? "dispatch" : "direct"));
+                            std::string("type ") + tname + " order " + cname + (entry ? std::string(" via ") + ITN[entry - 1] : std::string(" direct")));
+            verif::cover(std::string("rand:") + tname + ":" + cname + ":" + FAM[fam] + ":" + (entry ? std::string("dispatch:") + ITN[entry - 1] : std::string("direct")));
         }
+    (void)rng;
     verif::count("random_inputs");
 }
 
@@ -248,35 +350,45 @@ static void mode_rand(Rng& rng, uint64_t) {
         {
             std::vector<int> v(n);
             for (auto& x : v) x = (int)rng.below(universe) - universe / 2;
-            rand_one(rng, "int", "less", v, std::less<int>(), std::less<int>());
-            rand_one(rng, "int", "greater", v, std::greater<int>(), std::less<int>());
+            rand_one<true>(rng, "int", "less", v, std::less<int>(), std::less<int>(), 0x55555555);
+            rand_one<false>(rng, "int", "greater", v, std::greater<int>(), std::less<int>(), 0x55555555);
         }
         {
             std::vector<std::string> v(n);
             for (auto& x : v) x = std::string(rng.below(universe % 7 + 1), (char)('a' + rng.below(3))) + "-long-enough-to-live-on-the-heap";
-            rand_one(rng, "string", "less", v, std::less<std::string>(), std::less<std::string>());
-            rand_one(rng, "string", "by-length", v, StrLenLess(), std::less<std::string>());
+            const std::string fill = "filler-string-outside-the-sorted-range";
+            rand_one<false>(rng, "string", "less", v, std::less<std::string>(), std::less<std::string>(), fill);
+            rand_one<true>(rng, "string", "by-length", v, StrLenLess(), std::less<std::string>(), fill);
         }
         {
             std::vector<Rec> v(n);
             int id = 0;
             for (auto& x : v) { x.key = (int)rng.below(universe); x.payload = "payload-of-record-number-" + std::to_string(id++); }
             auto full = [](const Rec& a, const Rec& b) { return a.key != b.key ? a.key < b.key : a.payload < b.payload; };
-            rand_one(rng, "record", "by-key", v, RecLess(), full);
-            rand_one(rng, "record", "by-key-class-desc", v, RecClass(), full);
+            const Rec fill{ -5, "filler-record-outside-the-sorted-range" };
+            rand_one<false>(rng, "record", "by-key", v, RecLess(), full, fill);
+            rand_one<false>(rng, "record", "by-key-class-desc", v, RecClass(), full, fill);
             RecByRank by_rank;
             by_rank.rank.resize(1 + rng.below(40));
             for (auto& x : by_rank.rank) x = (int)rng.below(6);
-            rand_one(rng, "record", "by-rank-table", v, by_rank, full);
+            rand_one<true>(rng, "record", "by-rank-table", v, by_rank, full, fill);
+            RecFn fn = [by_rank](const Rec& a, const Rec& b) { return by_rank(a, b); };
+            rand_one<false>(rng, "record", "std::function", v, fn, full, fill);
         }
     }
 }
 
+#endif  // VERIF_PART == 1
+
 static void run_case(Rng& rng, uint64_t index) {
     std::string mode = verif::param("mode", "zo");
+#if VERIF_PART == 0
     if (mode == "zo") mode_zo(index);
     else if (mode == "obl") mode_obl(rng, index);
-    else mode_rand(rng, index);
+#else
+    if (mode == "rand") mode_rand(rng, index);
+#endif
+    else { fprintf(stderr, "mode %s is not in this unit\n", mode.c_str()); exit(2); }
 }
 
 VERIF_MAIN(run_case)
